@@ -2,7 +2,9 @@
 import itertools
 
 TEXT_ALPHABET = ['\\', 'n', 'N', ';', ',', ':', '"', '%', '2', 'C', '\r', '\n', ' ', 'a']
-WIDE = ['é', 'ß', '€', '中', '\u2028', '\x85', '😀', '\U0001F600', '\x0b', '\x0c', '\x1c', '\t', '\x7f', '’', "'", '=', '^']
+WIDE = ['é', 'ß', '€', '中', '\u2028', '\x85', '😀', '\U0001F600', '\x0b', '\x0c', '\x1c', '\t', '\x7f', '’', "'", '=', '^',
+        # invisible / space-like / combining code points: content like any other (a leading U+FEFF is not a BOM inside a value)
+        '\ufeff', '\u00a0', '\u3000', '\u200b', '\u2000', '\u0301', '\u1680']
 
 
 def all_strings(alphabet, maxlen):
@@ -23,4 +25,6 @@ def rand_text(rng, maxlen=200, alphabet=None, wide=0.15):
             out.append(chr(rng.choice([rng.randint(0x20, 0x7e), rng.randint(0xa0, 0x2fff), rng.randint(0x10000, 0x10ffff)])))
         else:
             out.append(rng.choice(alphabet))
+    if out and rng.random() < 0.06:
+        out[rng.choice([0, 0, len(out) - 1])] = rng.choice(['\ufeff', '\u00a0', '\u3000', '\u2000'])
     return ''.join(out)
